@@ -37,7 +37,38 @@ def opConvFactor : Handler := fun j => do
 def opSiFactor : Handler := fun j => do
   return Json.mkObj [("ok", ratJson (siFactor (← getSys (← field j "sys")) (← getDim (← field j "dim"))))]
 
+/-- `parse_unitvalue`: the harness supplies Python's `float()` (trusted primitive) as a table
+`"floats": [[token, "p/q" | null], …]`; a token missing from the table counts as non-numeric. -/
+def opParseUnitValue : Handler := fun j => do
+  let s ← getStr (← field j "s")
+  let tbl ← (← getArr (← field j "floats")).mapM fun e => do
+    match ← getArr e with
+    | [k, v] =>
+      let key ← getStr k
+      match v with
+      | .null => return (key.toList, (none : Option Rat))
+      | _ => return (key.toList, some (← getRat v))
+    | _ => throw "floats entries must be [token, value]"
+  let pyFloat : List Char → Option Rat := fun t => (tbl.lookup t).getD none
+  return resJson uvalJson (parseUnitValueChars pyFloat s.toList)
+
+/-- `str(UnitValue)`: the harness supplies `str(float(value))` as `"repr"` -/
+def opShowUnitValue : Handler := fun j => do
+  let r ← getStr (← field j "repr")
+  let u ← getUnits (← field j "u")
+  return Json.mkObj [("ok", String.ofList (showUValChars (fun _ => r.toList) ⟨0, u⟩))]
+
+def opUnitsEq : Handler := fun j => do
+  return Json.mkObj [("ok", Json.bool (Units.eqv (← getUnits (← field j "a")) (← getUnits (← field j "b"))))]
+
+def opPyInt : Handler := fun j => do
+  match pyInt (← getStr (← field j "s")).toList with
+  | some n => return Json.mkObj [("ok", intJson n)]
+  | none => return Json.mkObj [("error", "badSyntax")]
+
 def unitsOps : List (String × Handler) :=
+  [("parse_unitvalue", opParseUnitValue), ("show_unitvalue", opShowUnitValue), ("units_eq", opUnitsEq),
+   ("py_int", opPyInt)] ++
   [("parse_units", opParseUnits), ("show_units", opShowUnits), ("convert", opConvert),
    ("conv_factor", opConvFactor), ("si_factor", opSiFactor)]
 
